@@ -364,6 +364,20 @@ func init() {
 		now := fa.IsFiltered()
 		return !(was && !now), fmt.Sprintf("IsFiltered before the first full load=%v after=%v (race itself: C12 stress stage)", was, now)
 	}
+	// D37: LoadFilteredPolicy on an adapter without filtering support emptied the model before refusing
+	witnesses["D37-unsupported-filtered-load-empties-model"] = func() (bool, string) {
+		dir, _ := os.MkdirTemp("", "d37")
+		defer os.RemoveAll(dir)
+		path := dir + "/p.csv"
+		full := "p, alice, d, read\np, bob, d, read\n"
+		_ = os.WriteFile(path, []byte(full), 0o644)
+		e, _ := casbin.NewEnforcer(mustModel(rbacText), fileadapter.NewAdapter(path)) // the plain file adapter
+		lerr := e.LoadFilteredPolicy(&fileadapter.Filter{P: []string{"alice"}})
+		pol, _ := e.GetPolicy()
+		serr := e.SavePolicy()
+		after, _ := os.ReadFile(path)
+		return lerr != nil && (len(pol) != 2 || strings.TrimSpace(string(after)) != strings.TrimSpace(full)), fmt.Sprintf("LoadFilteredPolicy err=%v; listed afterwards=%v; SavePolicy err=%v; file now %q", lerr, pol, serr, string(after))
+	}
 	// D30: a rule whose priority does not parse was a barrier for the priority insertion
 	witnesses["D30-unparsable-priority-barrier"] = func() (bool, string) {
 		text := strings.Replace(strings.Replace(rbacText, "some(where (p.eft == allow))", "priority(p.eft) || deny", 1), "p = sub, obj, act", "p = priority, sub, obj, act, eft", 1)
